@@ -247,6 +247,23 @@ theorem homestead_rejects_high_s (E : Ecdsa) (H : Bytes → Bytes) (t : Tx) (hs 
   simp only [senderOf, hp, Bool.not_false, if_true]
   exact plain _
 
+/-- V is checked UNREDUCED: under the Frontier and Homestead signers (and for unprotected transactions under EIP-155) a V
+    other than exactly 27 or 28 — in particular 27/28 + 256·k, whose low byte minus 27 would still be a recovery id, or
+    anything with higher bits set — is `ErrInvalidSig`, whatever R and S.  (So a second V, hence a second hash, for the same
+    signed content and sender does not exist.) -/
+theorem v_out_of_range_rejected (E : Ecdsa) (H : Bytes → Bytes) (t : Tx) (hv : t.v ≠ 27 ∧ t.v ≠ 28) :
+    senderOf E H .frontier t = .error .invalidSig ∧ senderOf E H .homestead t = .error .invalidSig ∧
+    ∀ c, isProtectedV t.v = false → senderOf E H (.eip155 c) t = .error .invalidSig := by
+  refine ⟨?_, ?_, ?_⟩
+  · simp only [senderOf]; exact recoverPlain_nat_invalid (Or.inl hv)
+  · simp only [senderOf]; exact recoverPlain_nat_invalid (Or.inl hv)
+  · intro c hp
+    simp only [senderOf, hp, Bool.not_false, if_true]
+    exact recoverPlain_nat_invalid (Or.inl hv)
+
+/-- v_out_of_range_rejected: 283 = 27 + 256 is such a V. -/
+example : (283 : Nat) ≠ 27 ∧ (283 : Nat) ≠ 28 := by decide
+
 /-- the malleated twin of a protected transaction: S replaced by N - S and the recovery bit inside V flipped. -/
 def malleate (t : Tx) (c : Nat) : Tx :=
   { t with s := secpN - t.s, v := if t.v = 35 + 2 * c then 36 + 2 * c else 35 + 2 * c }
